@@ -29,6 +29,8 @@ CONSTANTS Configs,        \* set of records [n, block, retries, preload, release
                           \* the check detects them on the tree under test (see vh/c01.py: detect_traits):
                           \* "ReleaseLeavesUnfinishedOpen": release_conn() of a response whose body was not read
                           \*   to the end puts the connection back as it is (later revisions close it first)
+                          \* "D2_ProxyReadErrorMisfiled": EOF / reset while waiting for the reply behind a proxy is
+                          \*   reported as ProxyError (D2, repaired in later revisions: ProtocolError)
 
 NONE == 0
 FalseV == 0 - 9           \* Retry.total = False
@@ -248,7 +250,10 @@ Recv ==
             /\ err' = "HTTPException" /\ pc' = "except" /\ UNCHANGED <<conns, socks, resp, rcur, inj>>
        ELSE IF sym = "r_timeout" THEN err' = "ReadTimeoutError" /\ pc' = "except" /\ UNCHANGED <<conns, socks, resp, rcur, inj>>
        ELSE IF sym \in {"r_reset", "r_eof"} THEN   \* ConnectionError in begin(): http.client closes the connection
-            LET w1 == WClose(w, cur) IN
+            \* ... which forgets that the proxy had been reached; getresponse() restores that fact unless the tree
+            \* predates the repair of D2 (then the error is misfiled as ProxyError by Translate)
+            LET w0 == WClose(w, cur)
+                w1 == IF Has("D2_ProxyReadErrorMisfiled") THEN w0 ELSE [w0 EXCEPT !.cn[cur].prox = w.cn[cur].prox] IN
             /\ err' = "ConnectionError" /\ pc' = "except"
             /\ conns' = w1.cn /\ socks' = w1.sk /\ resp' = w1.rs /\ UNCHANGED <<rcur, inj>>
        ELSE IF sym = "r_garbage" THEN err' = "HTTPException" /\ pc' = "except" /\ UNCHANGED <<conns, socks, resp, rcur, inj>>
